@@ -54,6 +54,37 @@ def pat_coq(p):
     return "{| p_bos := %s; p_body := %s; p_eos := %s |}" % (coq_bool(p["bos"]), re_coq(p["body"]), coq_bool(p["eos"]))
 
 
+# an entry of exclude-subpkg-regex: a pattern dict plus optional "pre" (inline flag group written in front:
+# "(?i)", "(?s)", "(?U)", "(?-i)", "(?is)", "(?iU)") and "bare" (a top-level alternation written a|b without a group).
+# Only `i` changes whether a path matches ((?s), (?U) and (?-i) are neutral on newline-free paths).
+def entry_fold(e):
+    pre = e.get("pre", "")
+    return "i" in pre.strip("(?)").split("-")[0]
+
+
+def bare_go(r):
+    return bare_go(r[1]) + "|" + bare_go(r[2]) if r[0] == "alt" else re_go(r)
+
+
+def entry_body_go(e):
+    if e.get("bare") and not e["bos"] and not e["eos"]:
+        return bare_go(e["body"])
+    return pat_go(e)
+
+
+def entry_go(e):
+    return e.get("pre", "") + entry_body_go(e)
+
+
+def entry_coq(e):
+    return "{| x_fold := %s; x_pat := %s |}" % (coq_bool(entry_fold(e)), pat_coq(e))
+
+
+def entry_search(e, path):
+    """Oracle side: the entry on its own, Python `re`, case-insensitive iff its own flag group says so."""
+    return re.search(entry_body_go(e), path, re.I if entry_fold(e) else 0) is not None
+
+
 def tup(x):
     """JSON round trip turns tuples into lists; normalise."""
     if isinstance(x, list):
@@ -245,7 +276,7 @@ def decl_src(d, i, decls=None):
 
 def pkg_files(node):
     """file name -> Go source of one directory."""
-    pkgname = node.get("pkgname") or re.sub(r"[^a-z0-9]", "", node["rel"].split("/")[-1]) or "pk"
+    pkgname = node.get("pkgname") or re.sub(r"[^a-z0-9]", "", node["rel"].split("/")[-1].lower()) or "pk"
     out = {}
     by_file = {}
     for i, d in enumerate(node["decls"]):
@@ -384,6 +415,56 @@ def gen_prefix_config(rng, root, words):
     return pkgs
 
 
+# (no two paths may be equal up to case: the go tool refuses such a build with "case-insensitive import collision")
+CASE_FAMILY = ["cx", "cx/API", "cx/v2/api", "cx/Legacy", "cx/v2/legacy", "cx/legacyx", "cx/internal", "cx/Internal/db",
+               "cx/store/DB", "cx/pkg/db"]
+
+
+def xe(body, bos=False, eos=False, pre="", bare=False):
+    e = {"bos": bos, "body": body, "eos": eos}
+    if pre: e["pre"] = pre
+    if bare: e["bare"] = True
+    return e
+
+
+def exsub_flag_lists(rng):
+    """Lists of two or more entries where a non-last entry carries an inline flag group and a later entry
+    answers differently with and without that flag on some directory of CASE_FAMILY."""
+    L = lambda t: ("lit", t)
+    alt = lambda a, b: ("alt", L(a), L(b))
+    i1 = rng.choice(["(?i)", "(?i)", "(?is)", "(?iU)", "(?i-s)"])
+    neutral = rng.choice(["(?s)", "(?U)", "(?-i)", "(?sU)"])
+    return [
+        [xe(L("/api"), eos=True, pre=i1), xe(L("/legacy"), eos=True)],                       # cx/Legacy must stay
+        [xe(L(path_of("cx/internal")), bos=True, eos=True, pre=i1), xe(L("/db"), eos=True)],   # cx/store/DB must stay
+        [xe(L("api"), pre=i1), xe(L("internal/"))],                                            # cx/Internal/db must stay
+        [xe(L("/legacy"), eos=True), xe(L("/api"), eos=True, pre=i1)],                         # flag in the last entry
+        [xe(L("/api"), eos=True, pre=i1), xe(L("/legacy"), eos=True, pre="(?-i)")],            # switched off again
+        [xe(alt("/api", "/nope"), pre=i1, bare=True), xe(alt("/legacy", "/DB"), bare=True)],   # bare a|b entries
+        [xe(alt("/API", "/v2/legacy"), bare=True), xe(alt("internal/db", "/Legacy"), bare=True)],
+        [xe(L("/zzz"), pre=neutral), xe(L("/API"), eos=True, pre=i1), xe(L("/legacyx"), eos=True), xe(L("/db"), eos=True)],
+        [xe(("cat", L("/"), ("plus", ("class", False, [("a", "z")]))), eos=True, pre=rng.choice(["(?U)", "(?i)"])),
+         xe(("cat", L("/v2/"), ("star", ("any",))), eos=True)],                               # greedy quantifier and $
+        [xe(L("LEGACY"), pre=i1), xe(L("INTERNAL"))],                                          # second entry matches nothing
+    ]
+
+
+def gen_exsub_flag_config(rng, root):
+    lists = exsub_flag_lists(rng)
+    l = rng.choice(lists)
+    if rng.random() < 0.3:      # a random list over the same vocabulary
+        voc = ["/api", "/API", "/legacy", "/Legacy", "internal", "Internal/", "/db", "/DB", "legacyx", "/pkg"]
+        l = []
+        for j in range(rng.randint(2, 4)):
+            l.append(xe(("lit", rng.choice(voc)), eos=rng.random() < 0.5,
+                        pre=rng.choice(["", "", "(?i)", "(?i)", "(?s)", "(?U)", "(?-i)"])))
+    c = empty_cfg(); c["rec"] = True; c["all"] = True; c["mark"] = "_Cx"
+    if rng.random() < 0.6: c["exsub"] = l
+    else: root["exsub"] = l
+    if rng.random() < 0.2 and c["exsub"] is None: c["exsub"] = rng.choice(lists)       # the package list replaces the root list
+    return {path_of("cx"): {"null": False, "cfg": c, "ifaces": {}}}
+
+
 def gen_twin_decls(rng):
     names = rng.sample(["Client", "Server", "Store", "Codec", "handler"], rng.randint(2, 4))
     ds = [{"name": n, "form": "iface", "file": "a.go"} for n in names]
@@ -433,6 +514,10 @@ def gen_tree(rng):
             {"name": "Keep" + tag, "form": "iface", "file": "a.go"}, {"name": "Drop" + tag, "form": "iface", "file": "a.go"}]
             + ([{"name": "Opt" + tag, "form": "struct", "file": "b.go"}] if rng.random() < 0.3 else [])})
         add_generated(rng, nodes[-1]["decls"], p=0.3)
+    # directories that differ from each other (and from the exclusion patterns) only in letter case
+    for rel in CASE_FAMILY:
+        tag = re.sub(r"[^A-Za-z]", "", rel[2:]) or "Top"
+        nodes.append({"rel": rel, "class": "go", "decls": [{"name": "I" + tag, "form": "iface", "file": "a.go"}]})
     # cross-package state: several packages with the SAME package name (different import paths; one in a
     # directory with another name) that declare interfaces, structs and files with the SAME names, plus
     # the same interface names in a package with a different name
@@ -526,6 +611,10 @@ def gen_config(rng, nodes, shape=None):
     elif shape in ("nested", "explicit_child"): chosen = chain[:1] + rng.sample(chain[1:], min(1, len(chain) - 1))
     elif shape == "triple": chosen = chain[:1] + rng.sample(chain[1:], min(2, len(chain) - 1))
     elif shape == "rootrec": chosen = rng.sample([n["rel"] for n in gos], min(len(gos), 2)); root["rec"] = True
+    elif shape == "exsub_flags":
+        root["rec"] = None
+        pkgs = gen_exsub_flag_config(rng, root)
+        return {"root": root, "tags": tags, "pkgs": pkgs, "order": list(pkgs), "shape": shape}
     elif shape == "prefix_nested":
         pkgs = gen_prefix_config(rng, root, words)
         order = list(pkgs); rng.shuffle(order)
@@ -617,7 +706,7 @@ def cfg_yaml(c):
     if c["inc"] is not None: d["include-interface-regex"] = resrc_go(c["inc"])
     if c["exc"] is not None: d["exclude-interface-regex"] = resrc_go(c["exc"])
     if c["rec"] is not None: d["recursive"] = c["rec"]
-    if c["exsub"] is not None: d["exclude-subpkg-regex"] = [pat_go(p) for p in c["exsub"]]
+    if c["exsub"] is not None: d["exclude-subpkg-regex"] = [entry_go(p) for p in c["exsub"]]
     if c["mark"] is not None: d["structname"] = "{{.InterfaceName}}" + c["mark"]
     return d
 
@@ -711,7 +800,7 @@ def oracle_expected(case):
         if p in explicit or not has_go[p]:
             continue
         adopters = [r for r, c in explicit.items() if c["rec"] and (p == r or p.startswith(r + "/"))
-                    and not any(re.search(pat_go(x), p) for x in c["exsub"])]
+                    and not any(entry_search(x, p) for x in c["exsub"])]
         if adopters:
             effective[p] = explicit[max(adopters, key=len)]        # nearest = longest path
             listed[p] = {}
@@ -781,7 +870,7 @@ def cfg_coq(c, root=False):
         c["rec"] = False if c["rec"] is None else c["rec"]
     return "{| c_all := %s; c_inc := %s; c_exc := %s; c_rec := %s; c_exsub := %s; c_mark := %s |}" % (
         opt(c["all"], coq_bool), opt(c["inc"], resrc_coq), opt(c["exc"], resrc_coq), opt(c["rec"], coq_bool),
-        opt(c["exsub"], lambda l: coq_list(pat_coq(p) for p in l)), opt(c["mark"], coq_bytes))
+        opt(c["exsub"], lambda l: coq_list(entry_coq(p) for p in l)), opt(c["mark"], coq_bytes))
 
 
 def case_term(case, ex, obs):
@@ -860,6 +949,13 @@ def reductions(case):
                 c = copy.deepcopy(case)
                 c["config"]["pkgs"][p]["cfg"][k] = None
                 yield c
+    for holder, get in [("root", lambda c: c["config"]["root"])] + [(p, (lambda c, p=p: c["config"]["pkgs"][p]["cfg"])) for p in cfg["pkgs"]]:
+        l = get(case)["exsub"]
+        if l and len(l) > 1:
+            for j in range(len(l)):
+                c = copy.deepcopy(case)
+                del get(c)["exsub"][j]
+                yield c
     for k in ("all", "inc", "exc", "rec", "exsub"):
         if cfg["root"][k] is not None:
             c = copy.deepcopy(case)
@@ -913,11 +1009,11 @@ def gen_cases(ctx):
         tab = rng.sample(tab, 96)
     cases += tab
     ntrees = 140 if ctx.thorough() else 13
-    shapes = ["flat", "single", "nested", "prefix_nested", "twins_explicit", "twins_recursive", "triple", "explicit_child", "rootrec",
-              "prefix_nested", "nested", "random"]
+    shapes = ["flat", "single", "nested", "prefix_nested", "exsub_flags", "twins_explicit", "twins_recursive", "triple", "explicit_child",
+              "rootrec", "prefix_nested", "exsub_flags", "nested", "random"]
     for t in range(ntrees):
         nodes = gen_tree(rng)
-        for k in range(12 if ctx.thorough() else 9):
+        for k in range(14 if ctx.thorough() else 10):
             cfg = gen_config(rng, nodes, shape=shapes[k % len(shapes)])
             cases.append({"nodes": nodes, "config": cfg, "label": "tree%d:%s" % (t, cfg["shape"])})
     return cases
